@@ -306,6 +306,10 @@ func (v *c14vfs) MkdirAll(p string, m os.FileMode) error {
 	c14jit()
 	err := v.VFS.MkdirAll(p, m)
 	c14jit()
+	if g := c14tempGate.Load(); g != nil {
+		g.arrived <- struct{}{}
+		<-g.release
+	}
 	return err
 }
 func (v *c14vfs) Rename(a, b string) error { c14jit(); return v.VFS.Rename(a, b) }
@@ -320,6 +324,9 @@ func (v *c14vfs) TempFile(d, pre string) (files.WritableFile, error) {
 	c14jit()
 	return v.VFS.TempFile(d, pre)
 }
+
+// a scenario can hold a files store over c14vfs right after its next MkdirAll
+var c14tempGate atomic.Pointer[c14gate]
 
 func (be c14backend) short() string {
 	return strings.FieldsFunc(be.name, func(r rune) bool { return r == '(' || r == '[' })[0]
@@ -895,6 +902,56 @@ func c14IndexDeps(c *ctx) {
 	}
 }
 
+// ---- files under a queue- directory: an upload is held after it has made its shard directory and before it creates its
+// temporary file there; an enumeration passes (it schedules the clean-up of the still empty directory); the upload is let
+// go: it must succeed and the blob must be there. ----
+func c14QueueDirWriters(c *ctx, dir string) {
+	for round := 0; round < c.n(2, 6); round++ {
+		root := filepath.Join(dir, fmt.Sprintf("qdw%d", round), "queue-verif")
+		if err := os.MkdirAll(root, 0o755); err != nil {
+			c.rep.Notes = append(c.rep.Notes, "queue dir: "+err.Error())
+			return
+		}
+		sto := files.NewStorage(&c14vfs{files.OSFS()}, root)
+		data := []byte(fmt.Sprintf("queue dir writers %d %d", round, c.seed))
+		br := blob.RefFromBytes(data)
+		ctxb := context.Background()
+		where := "files(queue directory): an upload held between making its shard directory and creating its temporary file, an enumeration in between"
+		var rerr error
+		finished, pnc := withTimeout(30*time.Second, func() {
+			g := &c14gate{arrived: make(chan struct{}, 4), release: make(chan struct{})}
+			c14tempGate.Store(g)
+			done := make(chan struct{})
+			go func() {
+				defer close(done)
+				_, rerr = blobserver.Receive(ctxb, sto, br, bytes.NewReader(data))
+			}()
+			<-g.arrived
+			c14tempGate.Store(nil)
+			if _, err := dumpStore(sto); err != nil {
+				c.violation(-1, "c14-call-fails:files:enum", where+": enumerate: "+err.Error(), nil)
+			}
+			time.Sleep(100 * time.Millisecond) // the clean-up the enumeration scheduled runs (or waits for the upload)
+			close(g.release)
+			<-done
+		})
+		c14tempGate.Store(nil)
+		if !finished || pnc != nil {
+			c.violation(-1, "c14-hang:files", fmt.Sprintf("%s: finished=%v panic=%v", where, finished, pnc), nil)
+			continue
+		}
+		c.count("backends", "files (held upload)")
+		c.rep.SpecChecks++
+		if rerr != nil {
+			c.violation(-1, "c14-call-fails:files:receive", where+": the upload failed: "+rerr.Error(), nil)
+			continue
+		}
+		if sbs, err := statAll(sto, []blob.Ref{br}); err != nil || len(sbs) != 1 {
+			c.violation(-1, "c14-not-linearizable:files", fmt.Sprintf("%s: the upload was acknowledged, afterwards stat answers %v (err %v)", where, sbs, err), nil)
+		}
+	}
+}
+
 // ---- overlay: a removal is two steps (upper layer, then the deleted index). A removal is held between the two; a stat
 // sees the blob gone; an upload of the blob is started; the removal is let go; the upload is awaited. The upload began
 // after the removal had taken effect, so the blob must be there afterwards. ----
@@ -1080,6 +1137,7 @@ func runC14(c *ctx) {
 	_ = rand.Int
 	c14Store(c, dir)
 	c14OverlayWriters(c, dir)
+	c14QueueDirWriters(c, dir)
 	c14Packed(c, dir)
 	c14Index(c, dir)
 	c14IndexDeps(c)
